@@ -272,6 +272,27 @@ PROPS["C07"] = dict(
     note="Trusted: SQLite, file-system primitives, solvers, pyvc.",
 )
 
+PROPS["C11"] = dict(
+    modules=["contracts.sched_sql", "contracts.C12_limits", "contracts.C10_dispatch", "contracts.C06_clean",
+             "contracts.C18_under", "contracts.C11_need", "contracts.C11_bounded"],
+    decided=["the recomputation statement sets the cached need to max(declared need, TARGET elevation, needs of the attached "
+             "consuming steps), with the elevation exactly as the property states (exact file target on a regular output; "
+             "DEFAULT step with a regular output under a directory target)", "the dispatch query requires the cached need "
+             "above the threshold; need_threshold is OPTIONAL without targets and DEFAULT with file or directory targets",
+             "a file target that would be static or volatile is refused", "_normalize_targets classifies by the trailing "
+             "separator only and stores normalised root-relative paths", "revert_optional_steps resets exactly the attached "
+             "steps whose cached need is OPTIONAL and queues their outputs (C06)", "flag sites of the incremental "
+             "recomputation are present (scan)"],
+    undecided=["that the cached need equals the fixed point over the whole graph after every history (bounded stand-in)",
+               "the recursive propagation statements (assumed closures)"],
+    assumptions=["SQLite MAX / CASE / EXISTS semantics as read by vc/sqlfront.py", "posixpath functions"],
+    level="The local need equation and the dispatch predicate are SQL-text lemmas, the threshold, target refusal and target "
+          "classification are function contracts, the flag sites are a scan; the global fixed point under incremental "
+          "recomputation is a bounded stand-in comparing the cached need with a from-scratch computation at every dispatch "
+          "decision of every short history on the real code.",
+    note="Trusted: SQLite, posixpath, solvers, pyvc.",
+)
+
 NOT_BUILT = {}
 
 _loaded = False
